@@ -30,6 +30,26 @@ _G1024_SQ = "0x%X" % pow(_G1024, 2, _P1024)
 _G1024_FULLORDER = "0x2"       # an element of Z_p^* outside the order-q subgroup
 
 SP = "spake2.py"
+
+_MATCH_OLD = """        if other_side not in (SideA, SideB):
+            raise OffSides("I don't know what side they're on")
+        if self.side == other_side:
+            if self.side == SideA:
+                raise OffSides("I'm A, but I got a message from A (not B).")
+            else:
+                raise OffSides("I'm B, but I got a message from B (not A).")
+        return inbound_message
+"""
+_MATCH_NEW = """        match (self.side, other_side):
+            case (b"A", b"A"):
+                raise OffSides("I'm A, but I got a message from A (not B).")
+            case (b"B", b"B"):
+                raise OffSides("I'm B, but I got a message from B (not A).")
+            case (_, b"A") | (_, b"B"):
+                return inbound_message
+            case _:
+                raise OffSides("I don't know what side they're on")
+"""
 GR = "groups.py"
 ED = "ed25519_basic.py"
 UT = "util.py"
@@ -1135,6 +1155,11 @@ SideSymmetric = b"S"''', '''SideA, SideB, SideSymmetric = (bytes([c]) for c in b
       base="seeded_neutral/N20", tests="fail", note="shared offset helper called with +pw for the unblinding"),
     B("n24-double-uses-sum-for-G", ["C12"], [(ED, "    y2_minus_x2 = (y_squared - x_squared) % Q           # G\n", "    y2_minus_x2 = (y_squared + x_squared) % Q           # G\n")],
       base="seeded_neutral/N24", tests="fail", note="descriptive-name doubling formula with a sign error"),
+    # ---- match statement (Python 3.10) in the side check
+    N("p-match-statement-extract-message", [(SP, _MATCH_OLD, _MATCH_NEW)], note="structural pattern matching on (own side, peer side)"),
+    B("p-match-statement-own-side-accepted", ["C06"], [(SP, _MATCH_OLD, _MATCH_NEW.replace("""            case (b"A", b"A"):
+                raise OffSides("I'm A, but I got a message from A (not B).")
+""", ""))], note="the (A, A) case is missing: side A accepts a message labelled A"),
     # ---- ordinary dict idioms in the restore function (probes after round 9)
     N("r-reader-get-with-default", [(SP, """        if d["side"].encode("ascii") != self.side:
             raise WrongSideSerialized
